@@ -1058,7 +1058,8 @@ class BuiltinFuncCall(Expr):
     @property
     def type(self):
         func_type = {
-            'abs': lambda: self.args[0].type,
+            'abs': lambda: (self.args[0].type if self.args
+                            else Type.UNKNOWN),
             'asc': Type.INTEGER,
             'chr$': Type.STRING,
             'cint': Type.INTEGER,
